@@ -153,7 +153,8 @@ def run(res):
             continue
         # ---------------- inject-rpu
         nfr = len(gop)
-        nr = r.choice([nfr, nfr, nfr, max(1, nfr - 2), nfr + 3])
+        # shorter lists end anywhere inside the stream (also in the middle of a reordered group), not only two before the end
+        nr = r.choice([nfr, nfr, r.randint(1, max(1, nfr - 1)), r.randint(1, max(1, nfr - 1)), nfr + 3])
         rpus = r.sample(pool, nr) if nr <= len(pool) else [r.choice(pool) for _ in range(nr)]      # valid, pairwise distinct RPUs
         rpuf = w.write("new.bin", b"".join(b"\x00\x00\x00\x01" + R.escape(x) for x in rpus))
         src_frames = frames if r.random() < 0.5 else [[nn for nn in f if nn.type != 62] for f in frames]
@@ -233,7 +234,7 @@ def run(res):
     res.coverage.update({
         "evaluations": nrun,
         "distinct_nontrivial": ncase,
-        "rule": "streams of 1..24 frames whose decode order is generated from GOP structures (IDR resets, P anchors with shuffled B pictures in between, CRA with leading pictures, POC beyond 256 for LSB wrap-around, 1..4 slices per frame, EL present or not, AUD present or not), each frame tagged with a distinguishable RPU; extract-rpu (with and without -m 0) and inject-rpu (RPU list equal / shorter / longer, --no-add-aud, --start-code annex-b, existing RPUs or none) under hook chunk sizes; outputs compared with the Coq model and with a reference display order computed from the generator's POCs; extract(inject) round trip; one stream with negative-POC leading pictures (known finding); distinct GOPs counted",
+        "rule": "streams of 1..24 frames whose decode order is generated from GOP structures (IDR resets, P anchors with shuffled B pictures in between, CRA with leading pictures, POC beyond 256 for LSB wrap-around, 1..4 slices per frame, EL present or not, AUD present or not), each frame tagged with a distinguishable RPU; extract-rpu (with and without -m 0) and inject-rpu (RPU list equal / shorter (ending at any position, also inside a reordered group) / longer, --no-add-aud, --start-code annex-b, existing RPUs or none) under hook chunk sizes; outputs compared with the Coq model and with a reference display order computed from the generator's POCs; extract(inject) round trip; one stream with negative-POC leading pictures (known finding); distinct GOPs counted",
         "cli_runs": nrun, "kinds": kinds,
         "samples": [{"gop": gen_gop(C.rng(res.seed, "c07s"), 8)}],
     })
